@@ -149,6 +149,41 @@ fn first_edits(s: &[u8]) -> Vec<Vec<u8>> {
     out
 }
 
+/// Representative strings of every class for the call-sequence check.
+pub fn representatives(seed: u64) -> Vec<Vec<u8>> {
+    vec![
+        ref_encode(0x0003, 2, &[0xFF], true),
+        ref_encode(0xABCD, 0, &[1, 2, 3, 4, 5], false).to_ascii_lowercase(),
+        ref_encode(0x0000, 0, &[], false),
+        ref_encode(0x1234, 0, &fill(255, 3, seed), true),
+        b":00007F02007F".to_vec(),     // declares 0, carries 1
+        b":05007F02F9".to_vec(),       // declares 5, carries 0
+        b":02000302FFFA\r\n".to_vec(), // declares 2, carries 1
+        b":01000302FF00".to_vec(),     // bad checksum
+        b":0100030gFF00".to_vec(),     // malformed
+        b"".to_vec(),
+        b"\r\n".to_vec(),
+        ref_encode(0x0010, 0, &[8, 4, 2, 1], true),
+        ref_encode(0x0010, 0, &[1, 2, 4, 8], true),
+    ]
+}
+
+/// Decodes a SEQUENCE of strings on one fresh thread; every decode must agree with the reference as if it were alone.
+pub fn check_string_sequence(strings: Vec<Vec<u8>>) -> Vec<(&'static str, String, String)> {
+    crate::util::in_fresh_thread(move || {
+        for (k, s) in strings.iter().enumerate() {
+            let (_, v) = check_string(s, true);
+            if let Some((clause, class, detail)) = v {
+                if k == 0 {
+                    return vec![(clause, class, detail)];
+                }
+                return vec![("history-independent", format!("step-{}:{}", k.min(2), clause), format!("decode #{} of a sequence on one thread (after {}): {}", k, strings[..k].iter().map(|x| show_bytes(&x[..x.len().min(24)])).collect::<Vec<_>>().join(" , "), detail))];
+            }
+        }
+        vec![]
+    })
+}
+
 fn mixed_case(s: &[u8], mode: u8) -> Vec<u8> {
     s.iter()
         .enumerate()
@@ -319,6 +354,22 @@ pub fn run(ctx: &Ctx) -> Report {
     }
     rep.set("S3", json!({"bases": s3_bases.len(), "positions": s3_jobs.len(), "strings": all.evals - before}));
 
+    // S4: call sequences (all ordered pairs and triples of the representatives, each on a fresh thread)
+    let reps = representatives(ctx.seed);
+    let n = reps.len() as u64;
+    let nseq = n * n + n * n * n;
+    let accs = par_range(nseq, 16, Acc::default, |acc, i| {
+        let idx: Vec<usize> = if i < n * n { vec![(i / n) as usize, (i % n) as usize] } else { let j = i - n * n; vec![(j / (n * n)) as usize, ((j / n) % n) as usize, (j % n) as usize] };
+        acc.evals += idx.len() as u64;
+        let strings: Vec<Vec<u8>> = idx.iter().map(|&k| reps[k].clone()).collect();
+        for (clause, class, detail) in check_string_sequence(strings.clone()) {
+            acc.violation(ID, Violation::new(clause, class, detail, json!({"kind": "sequence", "strings": strings.iter().map(|x| hex(x)).collect::<Vec<_>>()}), (3u64 << 50) + i));
+        }
+    });
+    for a in accs {
+        all.merge(ID, a);
+    }
+    rep.set("S4", json!({"representatives": n, "sequences": nseq, "note": "decode sequences on a fresh thread each: a result must not depend on earlier calls"}));
     all.samples.push(json!({"string": ":01000302ff FB -> shown", "example_valid": show_bytes(&bs[13].1), "reference": format!("{:?}", ref_parse(&bs[13].1))}));
     all.samples.push(json!({"string": show_bytes(b":02000302FFFA"), "reference": format!("{:?}", ref_parse(b":02000302FFFA")), "implementation": format!("{:?}", Frame::from_bytes(b":02000302FFFA").map_err(|e| e.to_string()))}));
     all.samples.push(json!({"string": show_bytes(b":0\r\n:g"), "reference": format!("{:?}", ref_parse(b":0\r\n:g"))}));
@@ -335,6 +386,10 @@ pub fn run(ctx: &Ctx) -> Report {
 }
 
 pub fn replay(_ctx: &Ctx, case: &Value) -> Result<Vec<Violation>, String> {
+    if case["kind"].as_str() == Some("sequence") {
+        let strings: Vec<Vec<u8>> = case["strings"].as_array().ok_or("strings")?.iter().map(|x| unhex(x.as_str().unwrap_or(""))).collect();
+        return Ok(check_string_sequence(strings).into_iter().map(|(c, k, d)| Violation::new(c, k, d, case.clone(), 0)).collect());
+    }
     if case["kind"].as_str() != Some("string") {
         return Err("unknown case kind".into());
     }
